@@ -169,6 +169,32 @@ PROPS["C14"] = dict(
                "model. Partial by nature: actual memory safety and stack usage of compiled code cannot be exhibited by a model.",
 )
 
+PROPS["C12"] = dict(
+    lean_targets=["SJ.Props.C12", "SJ.Audit.C12"],
+    configs=dict(quick=["d"], thorough=["d", "ap", "fr"]),
+    gen_keys=["error.", "de."],
+    rule="StreamDeserializer histories of next()/byte_offset(), continuing 3 calls past the end and past errors: a fixed corpus of "
+         "44 streams (separators, undelimited scalars, truncations, \\u cut-offs), every token sequence of length <= 2 (thorough 3) "
+         "over the structural alphabet, concatenations of 1-4 generated values with every separator choice (none, space, newline, "
+         "mixed), each also truncated at a random position and corrupted by one mutation; item types Value and IgnoredAny; sources "
+         "str, slice, reader. One case = one (stream, item type, source, call count); non-trivial = stream longer than one byte.",
+    trusted_base=MACHINE_TB,
+    assumptions=["byte_offset() after the stream has failed is not constrained by the property and is not compared",
+                 "typed item types are not yet inside the model"],
+    partial=["c12_values (the yielded values/offsets are exactly those of the grammar's decomposition) awaits parser completeness; "
+             "until then it is checked on every generated stream against the independent scanner Spec.Pos + Spec.Canon"],
+    technique="Lean 4 theorems over a model of Iterator::next on top of the byte-step machine (fusedness by invariant over call "
+              "histories, progress, Eof errors only at end of input) + history-level differential run against the crate and an "
+              "independent grammar-based oracle",
+    level_text="Machine-checked: c12_fused (after a failed value every later next() is None, for any number of calls), c12_error_fails, "
+               "c12_progress (each yielded value consumes at least one byte: next() terminates and yields at most n values), "
+               "runPrefix_eof_at_end (an Eof error is reported only at the end of the available input). The delimiter and "
+               "self-delineation sets are regenerated from src/de.rs. Whole histories (items and byte offsets) of the crate are "
+               "compared with the model and with an independent grammar-based expectation.",
+    level_note="Trusted: Lean kernel + 3 standard axioms; extract.py; harness/driver; machine and stream models validated by "
+               "correspondence (0 disagreements).",
+)
+
 # properties not claimed yet (kept current as checks are added)
 NOT_APPLICABLE = [
     dict(property_id=f"C{i:02d}", reason="check under construction in this build phase; not yet claimed (see DESIGN.md §11 build order)")
